@@ -238,6 +238,13 @@ def bin_case(uname, A, B, opname, rng, mism, hows=None):
     ea, la, sa = operand("A", la, ha)
     eb, lb, sb = operand("B", lb, hb)
     lines = la + lb + ["%s %s %s" % (ea, sym, eb)]
+    if sa == "var" and sb == "var" and rng.random() < 0.12:
+        # one operand is a name bound by a match arm (a local environment) that shadows a global `w` holding the OTHER
+        # operand: the operator must resolve its operand names through the local bindings first
+        if rng.random() < 0.5:
+            lines = la + lb + ["w := B", "A? | w => w %s B | * => A %s B." % (sym, sym)]; sa = "arm"
+        else:
+            lines = la + lb + ["w := A", "B? | w => A %s w | * => A %s B." % (sym, sym)]; sb = "arm"
     c = mk([kind, opname, flag(ha), flag(hb), [vsx(v) for v in A], [vsx(v) for v in B]], lines,
            dict(stream="operator", elemkind=uname, op=opname, built=ha + "/" + hb, written=sa + "/" + sb), runs)
     c["meta"] = ("bin", uname, list(A), list(B), opname, mism, (ha, hb))
